@@ -499,7 +499,8 @@ def extra_checks(run):
         summary = []
         for k, pr in enumerate(procs):
             try:
-                so, se = pr.communicate(timeout=3000)
+                # (a quick run takes seconds; a process that sits there has its goroutines waiting for a lock nobody gives back)
+                so, se = pr.communicate(timeout=300 if run.tier == "quick" else 3000)
             except subprocess.TimeoutExpired:
                 pr.kill()
                 so, se = pr.communicate()
@@ -513,6 +514,27 @@ def extra_checks(run):
                 break
         run.notes.append("parallel queries (16 processes): " + " | ".join(summary[:3]) + " ...")
     return out
+
+
+def _extra_checks_c09(run):
+    """once SetReadOnly(true) has returned the instance does not change - also when it was called while another goroutine's
+    Push sat inside its critical section (mutex-enabled stack; deterministic: the PushPolicy waits on a channel)"""
+    import subprocess
+    if not run.harness:
+        return []
+    cmd = [run.harness, "roprobe", "-rounds", "20" if run.tier == "quick" else "200"]
+    try:
+        p = subprocess.run(cmd, stdout=subprocess.PIPE, stderr=subprocess.PIPE, text=True, timeout=600)
+        out, rc, err = p.stdout, p.returncode, p.stderr
+    except subprocess.TimeoutExpired:
+        return [("roprobe-timeout", "read-only switch during a running Push: the probe did not finish within 600 s", "cmd: %s\n" % " ".join(cmd))]
+    fails = [l for l in out.split("\n") if l.startswith("ROPROBE-FAIL")]
+    done = [l for l in out.split("\n") if l.startswith("ROPROBE-DONE")]
+    run.notes.append("read-only switch during a running Push: %s" % (done[0] if done else "no summary (exit %s)" % rc))
+    if fails or not done:
+        return [("roprobe", "SetReadOnly(true) while a Push holds the mutex: %s" % (fails[0] if fails else "process exited with %s: %s" % (rc, err.strip()[-300:])),
+                 "cmd: %s\n%s" % (" ".join(cmd), "\n".join(fails[:40])))]
+    return []
 
 
 def _extra_checks_c18(run):
@@ -722,4 +744,6 @@ def extra_checks(run):
         return c10_extra.extra_checks(run)
     if run.pid == "C18":
         return _extra_checks_c18(run)
+    if run.pid == "C09":
+        return _extra_checks_c09(run)
     return _extra_checks_c11(run)
